@@ -105,7 +105,14 @@ impl DecodeBeatmap for Events {
             EventType::Background => state.background_file = event_params.clean_filename(),
             EventType::Break => {
                 let start_time = f64::parse(start_time)?;
-                let end_time = start_time.max(f64::parse(event_params)?);
+                let end_time = f64::parse(event_params)?;
+
+                // A break never ends before it starts
+                let end_time = if end_time < start_time {
+                    start_time
+                } else {
+                    end_time
+                };
 
                 state.breaks.push(BreakPeriod {
                     start_time,
